@@ -85,7 +85,11 @@ def run(rep: E.Report, work: str, selftest: bool = False, replay: dict | None = 
         want = sorted((x["c"], x["n"]) for x in byid[t["id"]][1][0]["used"])
         got = sorted((x["c"], x["n"]) for x in t["steps"][0]["used"])
         if want != got:
-            raise E.MachineryError("alloc host %s did not materialise the initial set: want %s got %s (%s)" % (t["kind"], want, got, t["steps"][0]["_raw"]))
+            # the identifiers were written into the document / package the object was made from: an object that does not hold them has
+            # lost or merged some on the way in (the hosts themselves are exercised by every run on the unchanged tree)
+            rep.reject("LoadedIdentifiersHeld@alloc.%s.init" % t["kind"], {"module": "Alloc", "id": t["id"], "h": byid[t["id"]][1], "observed": t["steps"][:1]},
+                       "%s: the object made from identifiers %s holds %s (%s)" % (t["kind"], want, got, t["steps"][0]["_raw"]))
+            t["_skip"] = True
     clean = lambda t: {"id": t["id"], "kind": t["kind"], "steps": [{k: v for k, v in s.items() if not k.startswith("_")} for s in t["steps"]]}  # noqa: E731
     if selftest:
         t = json.loads(json.dumps(clean(next(x for x in traces if x["kind"] == "rid" and x["steps"][1]["op"] == "alloc" and len(x["steps"][0]["used"]) > 1))))
@@ -98,6 +102,7 @@ def run(rep: E.Report, work: str, selftest: bool = False, replay: dict | None = 
     tot = {"traces": 0, "rejected": 0, "drift": 0, "allocs": 0}
     CH = 6000
     tmap = {t["id"]: t for t in traces}
+    traces = [t for t in traces if not t.get("_skip")]
     for c0 in range(0, len(traces), CH):
         bad, summ, _ = E.validate("Trace_Alloc", {"traces": [clean(t) for t in traces[c0:c0 + CH]]}, work=work, name="alloc_obs%d" % (c0 // CH))
         for k in tot:
